@@ -44,6 +44,7 @@ func (mltp MaskedLinearTransformationProtocol) ShallowCopy() MaskedLinearTransfo
 		defaultScale: mltp.defaultScale,
 		mask:         mask,
 		encoder:      mltp.encoder.ShallowCopy(),
+		noise:        mltp.noise,
 	}
 }
 
@@ -74,6 +75,7 @@ func (mltp MaskedLinearTransformationProtocol) WithParams(paramsOut ckks.Paramet
 		defaultScale: defaultScale,
 		mask:         mask,
 		encoder:      ckks.NewEncoder(paramsOut, mltp.prec),
+		noise:        mltp.noise,
 	}
 }
 
